@@ -171,6 +171,76 @@ class C01(Check):
                 cases.append(Case("c%d" % n, "", "|".join(["new 0", "%s 0 %s" % (mode, hx(wtxt.encode("latin-1")))]),
                                   {"family": "text", "name": mode, "expr": wtxt}))
         # END r06
+        # (d) sessions: several texts in ONE context, some rejected, then calls of every declared signature — the state a rejected
+        #     text leaves behind (function table, backups, symbols) must never make a LATER valid text crash. Exhaustive over all
+        #     sequences of 3 declarations (valid | body with a syntax error | body with an undefined symbol | unterminated) of the
+        #     signatures F/0, F/1, G/0 followed by a call of each signature; every sequence through all three paths.
+        sigs = [("f", 0), ("f", 1), ("g", 0)]
+
+        def decl(sig, kind, ver):
+            name, ar = sig
+            par = "(a)" if ar else "()"
+            body = {"ok": "return %d%s;" % (ver, " + a" if ar else ""),
+                    "syn": "return %d + ;" % ver,
+                    "und": "return %d + nosuchvar_%d;" % (ver, ver),
+                    "eof": "return %d;" % ver}[kind]
+            tail = " end;" if kind != "eof" else ""
+            return "function %s%s return integer is begin %s%s" % (name, par, body, tail)
+
+        def call(sig):
+            name, ar = sig
+            return "print %s(%s);" % (name, "1" if ar else "")
+
+        steps = [(s, k) for s in sigs for k in ("ok", "syn", "und", "eof")]
+        nsess = 0
+        for seq in itertools.product(steps, repeat=3):
+            for mode in ("prog", "capi", "step"):
+                ops = ["new 0"]
+                for ver, (sig, kind) in enumerate(seq):
+                    ops.append("%s 0 %s" % (mode, hx(decl(sig, kind, ver + 1))))
+                txts = [decl(sig, kind, ver + 1) for ver, (sig, kind) in enumerate(seq)]
+                for sg in sigs:
+                    ops.append("%s 0 %s" % (mode, hx(call(sg))))
+                n += 1
+                nsess += 1
+                cases.append(Case("c%d" % n, "", "|".join(ops), {"family": "session", "name": mode, "expr": " ## ".join(txts + [call(sg) for sg in sigs])}))
+        self.stats["session_cases"] = nsess
+        # (e) arguments that change the receiver (or the other operand) while the call is being evaluated: every member method on a
+        #     table / string / bytes / tuple variable x every argument slot filled with an expression that shrinks, grows or re-types
+        #     the SAME variable in place and yields a value of the slot's type; positions first / last / one past the end.
+        recvs = [("Ti1[I:1,I:2,I:3]", "7", "tab(2, 9)"), ("S:616263", '"z"', '"yy"'), ("R:616263", "65", 'raw("yy")'),
+                 ("Ts1[S:61,S:62,S:63]", '"q"', 'tab(2, "w")'), ("Ti2[Ti1[I:1],Ti1[I:2],Ti1[I:3]]", "tab(1, 7)", "tab(2, tab(1, 9))")]
+        nself = 0
+        for (rv, el, coll) in recvs:
+            shrink = ["x.delete(0)", "x.delete(0).delete(0)", "x.delete(0).delete(0).delete(0)"]
+            grow = ["x.concat(%s)" % el, "x.insert(0, %s)" % el, "x.concat(%s)" % coll]
+            muts_x = shrink + grow
+            int_slots = ["%s.count()" % mx for mx in muts_x] + ["%s.count() - 1" % mx for mx in muts_x]
+            elem_slots = ["%s.at(0)" % mx for mx in muts_x]
+            whole_slots = muts_x
+            for pos in ["0", "2", "3", "x.count() - 1"] + int_slots:
+                for mname, tmpl in (("at", "x.at(%s)"), ("delete", "x.delete(%s)")):
+                    if pos in ("0", "2", "3", "x.count() - 1"):
+                        continue
+                    add("self", mname, tmpl % pos, ["set 0 %s %s" % (hx("X"), rv)])
+                    nself += 1
+                for mname in ("put", "insert"):
+                    for e in ([el] if pos in int_slots else []) + elem_slots + (whole_slots if mname == "insert" else []):
+                        add("self", mname, "x.%s(%s, %s)" % (mname, pos, e), ["set 0 %s %s" % (hx("X"), rv)])
+                        nself += 1
+            for e in elem_slots + whole_slots:
+                add("self", "concat", "x.concat(%s)" % e, ["set 0 %s %s" % (hx("X"), rv)])
+                nself += 1
+            for (opname, optext) in (("EQ", "=="), ("NE", "!="), ("ADD", "+"), ("LT", "<")):
+                for e in muts_x:
+                    add("self", opname, "x %s %s" % (optext, e), ["set 0 %s %s" % (hx("X"), rv)])
+                    add("self", opname, "%s %s x" % (e, optext), ["set 0 %s %s" % (hx("X"), rv)])
+                    nself += 2
+        tupv = "Uu0{i0,s0}(I:1,S:61)"
+        for e in ("x.set@1(2)@1", "x.set@2(\"k\")@1", "x@1"):
+            add("self", "set", "x.set@1(%s)" % e, ["set 0 %s %s" % (hx("X"), tupv)])
+            nself += 1
+        self.stats["self_cases"] = nself
         self.stats["cases"] = n
         return cases
 
